@@ -290,10 +290,11 @@ class UnitRegistry:
         # not identical to them; units built from this registry must carry
         # the singletons
         self.__dict__.update(state)
-        self.lut = {
-            k: (v[0], _intern_dimensions(v[1])) + tuple(v[2:])
-            for k, v in self.lut.items()
-        }
+        # in place: a shallow copy (copy.copy) keeps sharing its table
+        for k, v in list(self.lut.items()):
+            dims = _intern_dimensions(v[1])
+            if dims is not v[1]:
+                self.lut[k] = (v[0], dims) + tuple(v[2:])
 
     def __deepcopy__(self, memodict=None):
         # the table's values are immutable tuples; copying the dict is enough,
